@@ -455,3 +455,59 @@ func rapidShuffle(t *rapid.T, xs []int) {
 	p := rapid.Permutation(append([]int{}, xs...)).Draw(t, "shuffle")
 	copy(xs, p)
 }
+
+// fuzzPrefix builds a small fixed history (accepted configuration, running
+// DKG, one check-in) that every fuzz iteration replays on a fresh application.
+var fuzzPrefixCalls = func() []call {
+	var calls []call
+	n := uint64(0)
+	mk := func(s int, m *shmsg.Message) []byte { n++; return uni.MakeTx(s, apphist.ChainID, 5000+n, m) }
+	cfg := shmsgBatchConfig(0, []int{0, 1, 2}, 2, 1)
+	calls = append(calls, call{Kind: 'B', H: 1},
+		call{Kind: 'D', Tx: mk(0, cfg), Tag: "cfg"}, call{Kind: 'D', Tx: mk(1, cfg), Tag: "cfg"},
+		call{Kind: 'D', Tx: mk(0, shmsg.NewCheckIn(uni.ValKeys[0], mustECIES(uni.EncKeys[0]))), Tag: "checkin"},
+		call{Kind: 'D', Tx: mk(0, shmsg.NewBlockSeen(0)), Tag: "seen"},
+		call{Kind: 'E', H: 1}, call{Kind: 'B', H: 2})
+	return calls
+}()
+
+var fuzzGenesis = Genesis{Keypers: []int{0, 1}, Threshold: 2, Validators: []int{10}}
+
+func FuzzC10_Tx(f *testing.F) {
+	f.Add([]byte(""))
+	f.Add([]byte("AAAA"))
+	f.Add(uni.MakeTx(0, apphist.ChainID, 1, shmsg.NewDKGResult(1, false)))
+	f.Add(uni.MakeTx(2, apphist.ChainID, 2, shmsg.NewPolyEval(1, []common.Address{uni.Addrs[0]}, [][]byte{{1}})))
+	f.Add(uni.MakeTx(5, apphist.ChainID, 3, shmsg.NewBlockSeen(9)))
+	f.Add(uni.MakeTx(1, "other", 4, shmsg.NewAccusation(1, []common.Address{uni.Addrs[0]})))
+	f.Add(apphist.SignRaw([]byte{0x0a, 0x02, 0x22, 0x00}, uni.Keys[0]))
+	f.Fuzz(func(t *testing.T, tx []byte) {
+		var failSig, failMsg string
+		fail := func(sig, f string, a ...any) {
+			if failSig == "" {
+				failSig, failMsg = sig, fmt.Sprintf(f, a...)
+			}
+		}
+		appA, _ := runCalls(fuzzGenesis, fuzzPrefixCalls, fail)
+		withTx := append(append([]call{}, fuzzPrefixCalls...), call{Kind: 'C', Tx: tx, Tag: "FUZZ"}, call{Kind: 'D', Tx: tx, Tag: "FUZZ"})
+		appB, out := runCalls(fuzzGenesis, withTx, fail)
+		if failSig == "" {
+			d := apphist.Decode(tx)
+			refused := !d.OK || string(d.Msg.ChainId) != apphist.ChainID
+			if refused {
+				var rc abcitypes.ResponseCheckTx
+				var rd abcitypes.ResponseDeliverTx
+				_ = rc.Unmarshal([]byte(out[len(out)-2].Data))
+				_ = rd.Unmarshal([]byte(out[len(out)-1].Data))
+				if rc.Code == 0 || rd.Code == 0 || len(rd.Events) > 0 {
+					fail("refused-tx-code-zero", "malformed / wrong-chain transaction answered check=%d deliver=%d events=%d", rc.Code, rd.Code, len(rd.Events))
+				} else if df := appDiff(appA, appB); df != "" {
+					fail("refused-tx-changes-state", "malformed / wrong-chain transaction changed state:\n%s", df)
+				}
+			}
+		}
+		if failSig != "" {
+			t.Fatalf("VERIF-FAIL signature=%s :: %s (tx %q)", failSig, failMsg, tx)
+		}
+	})
+}
